@@ -225,3 +225,27 @@ def sort_honours_collation(i: int, j: int, k: int, ci: bool) -> bool:
     return ev(T['sort_coll'], a=vals[0], b=vals[1], c=vals[2], coll=coll) == want \
         and ev(T['sort_coll_key'], a=vals[0], b=vals[1], c=vals[2], coll=coll) == want \
         and ev(T['sort_coll_key2'], a=vals[0], b=vals[1], c=vals[2], coll=coll) == want
+
+
+# --- added after round-3 seeded changes: function items passed INTO a partially applied higher-order function keep their closure ----------
+
+T.update(parse_all({
+    'partial_hof_closure': 'let $k := $p, $m := fold-left(?, 0, ?), $fs := (for $k in ($q, $r) return function($a, $x) { $a + $x * $k }) '
+                           'return (for $f in $fs return $m(($x, $y), $f), $k)',
+    'partial_hof_foreach': 'let $e := for-each(($x, $y), ?), $f := (let $k := $q return function($v) { $v + $k }) return ($e($f), $e(abs#1))',
+    'partial_hof_named_called': 'let $g := abs#1, $u := $g($x), $e := for-each(($x, $y), ?) return ($u, $e($g))',
+}))
+
+
+@ob(budget=150, bound='x, y, p, q, r: unbounded integers: closures built in a for/let scope and passed later to a partially applied fold-left / '
+                      'for-each (placeholder in the function position) see their captured values, not the call-site variables; a named '
+                      'function item that was already called stays a function',
+    funcs=['elementpath/xpath_tokens/functions.py:XPathFunction.__call__', 'elementpath/xpath30/_xpath30_operators.py:partial application'])
+def partial_hof_keeps_closures(x: int, y: int, p: int, q: int, r: int) -> bool:
+    """
+    post: _
+    """
+    v = dict(x=x, y=y, p=p, q=q, r=r)
+    return ev(T['partial_hof_closure'], **v) == [x * q + y * q, x * r + y * r, p] \
+        and ev(T['partial_hof_foreach'], **v) == [x + q, y + q, abs(x), abs(y)] \
+        and ev(T['partial_hof_named_called'], **v) == [abs(x), abs(x), abs(y)]
